@@ -69,8 +69,11 @@ class DocBuilder:
             new = lambda: self.c.new("int" if kind == "int" else "str")  # noqa: E731
             if pl == "example":
                 v = new()
+                falsy = location != "path" and rng.random() < 0.15
+                if falsy:     # an explicit example is an example whatever its truth value (0, "")
+                    v = 0 if kind == "int" else ""
                 p["example"] = v
-                self.want(op, "param", cont, name, [], v, "param.example")
+                self.want(op, "param", cont, name, [], v, "param.example" + ("+falsy" if falsy else ""))
             elif pl == "examples":
                 p.setdefault("examples", {})
                 for i in range(rng.randint(1, 3)):
@@ -95,8 +98,11 @@ class DocBuilder:
                 self.want(op, "param", cont, name, [], v, "param.examples.$ref-bare" + ("+word-value" if word else ""))
             elif pl == "schema-example":
                 v = new()
+                falsy = location != "path" and rng.random() < 0.15
+                if falsy:
+                    v = 0 if kind == "int" else ""
                 schema["example"] = v
-                self.want(op, "param", cont, name, [], v, "param.schema.example")
+                self.want(op, "param", cont, name, [], v, "param.schema.example" + ("+falsy" if falsy else ""))
             elif pl == "schema-examples":
                 vs = [new() for _ in range(rng.randint(1, 2))]
                 schema["examples"] = vs
@@ -238,8 +244,11 @@ class DocBuilder:
             return {"k": new(), "z": rng.randint(0, 3)}
         if rng.random() < 0.35:
             v = obj()
+            falsy = rng.random() < 0.15
+            if falsy:
+                v = {}
             media["example"] = v
-            self.want(op, "body", None, mt, [], v, "media.example")
+            self.want(op, "body", None, mt, [], v, "media.example" + ("+falsy" if falsy else ""))
         if rng.random() < 0.35:
             media["examples"] = {}
             for i in range(rng.randint(1, 2)):
@@ -367,8 +376,11 @@ class DocBuilder:
                 p = {"name": name, "in": loc, "type": "string"}
                 if rng.random() < 0.6:
                     v = new("str")
+                    falsy = rng.random() < 0.15
+                    if falsy:
+                        v = ""
                     p["x-example"] = v
-                    self.want(op, "param", CONTAINER[loc], name, [], v, "swagger.param.x-example")
+                    self.want(op, "param", CONTAINER[loc], name, [], v, "swagger.param.x-example" + ("+falsy" if falsy else ""))
                 if rng.random() < 0.4:
                     v = new("str")
                     p["x-examples"] = {"a": {"value": v}}
